@@ -39,11 +39,8 @@ Barrier = BarrierType()
 
 
 def _to_naive_utc_time(value: dt.datetime | None) -> dt.datetime | None:
-    return (
-        value.astimezone(dt.timezone.utc).replace(tzinfo=None)
-        if value and value.tzinfo
-        else value
-    )
+    # A naive value is interpreted as local time, which is what astimezone does.
+    return value.astimezone(dt.timezone.utc).replace(tzinfo=None) if value else value
 
 
 def _get_stale_scope(call: Call, registry: Registry) -> tuple:
